@@ -143,6 +143,25 @@ func BuildIdent(t *rapid.T, hostile bool, label string) string {
 // Parts draws a version; with hostile=false it is always valid.
 func Parts(t *rapid.T, hostile bool) VerParts {
 	p := VerParts{Prefix: "v"}
+	if Uniform(t, 4000, "verylong") == 0 {
+		// versions beyond 64 KiB: a numeric field, a prerelease identifier or many identifiers
+		n := []int{65530, 65536, 65537, 70000, 131073}[Uniform(t, 5, "verylongn")]
+		p.Nums = []string{"1", "2", "3"}
+		switch Uniform(t, 4, "verylongk") {
+		case 0:
+			p.Nums[Uniform(t, 3, "verylongf")] = strings.Repeat("9", n)
+		case 1:
+			p.Pre = []string{strings.Repeat("a", n)}
+		case 2:
+			p.Pre = []string{"rc", strings.Repeat("7", n), "x"}
+		case 3:
+			p.Nums = []string{strings.Repeat("7", n)}
+		}
+		if Chance(t, 30, "verylongbuild") {
+			p.Build = []string{"meta"}
+		}
+		return p
+	}
 	if hostile && rapid.IntRange(0, 39).Draw(t, "pfx") == 0 {
 		p.Prefix = []string{"", "V", "vv", "v ", "go"}[rapid.IntRange(0, 4).Draw(t, "badpfx")]
 	}
